@@ -310,7 +310,8 @@ def fn_indexed_stat(spec, rec):
     from glue.core.data_derived import IndexedData
     parent = gen.build_data(spec["data"])
     shape = parent.shape
-    ind = tuple(None if i is None else i % s for i, s in zip(spec["indices"], shape))
+    neg = list(spec.get("neg") or []) + [False] * len(shape)
+    ind = tuple(None if i is None else (i % s - s if n else i % s) for i, s, n in zip(spec["indices"], shape, neg))
     idata = IndexedData(parent, ind)
     pv = tuple(slice(None) if i is None else i for i in ind)
     vals = gen.ref_values(spec["data"], ["c", 0]).astype(float)[pv]
@@ -529,8 +530,8 @@ def indexed_stat_cases(draw):
     if all(i is not None for i in ind):
         ind[draw(st.integers(0, nd - 1))] = None
     sub = draw(st.one_of(st.none(), gen.tree_spec(dspec, max_leaves=2, kinds=["ineq", "range", "mask", "element", "multirange"], multior=False)))
-    return {"data": dspec, "indices": ind, "subset": sub, "axis": draw(st.one_of(st.none(), st.integers(0, 3))),
-            "stat": draw(st.sampled_from(["minimum", "maximum", "mean", "sum", "median"]))}
+    return {"data": dspec, "indices": ind, "neg": draw(st.lists(st.booleans(), min_size=nd, max_size=nd)), "subset": sub,
+            "axis": draw(st.one_of(st.none(), st.integers(0, 3))), "stat": draw(st.sampled_from(["minimum", "maximum", "mean", "sum", "median"]))}
 
 
 def checks(tier):
